@@ -9,6 +9,8 @@ CONSTANTS
   MaxCmds = 3
   Concurrent = FALSE
   AllowInstant = TRUE
+  AppendOnly = FALSE
+  AllowDamage = FALSE
   AllowCrash = TRUE
   AllowEarly = TRUE
   TickInPrune = TRUE
